@@ -18,7 +18,8 @@ HUGE = [2 ** 62, 2 ** 64 - 1]        # limits whose byte count does not fit a us
 
 
 class DH(Hooks):
-    def __init__(self, ctx, methods, consts, selfv, utf8_ok=True, typed=None):
+    def __init__(self, ctx, methods, consts, selfv, utf8_ok=True, typed=None, multibyte=False):
+        self.multibyte = multibyte
         self.ctx, self.methods, self.consts, self.selfv, self.utf8_ok = ctx, methods, consts, selfv, utf8_ok
         self.typed = typed
         self.depth = 0
@@ -48,6 +49,8 @@ class DH(Hooks):
             if not (isinstance(a, tuple) and a[0] == "list"):
                 return NotImplemented
             return ("ok", ("utf8", tuple(a[1]))) if self.utf8_ok else ("err", ("sym", "Utf8Error"))
+        if last in ("from_utf8_lossy", "from_utf8_unchecked") and len(args) == 1:
+            raise Anchor("%s: the string is not validated" % last)
         if last == "from_le_bytes" and len(args) == 1 and isinstance(args[0], tuple) and args[0][0] == "list":
             return ("le", tuple(args[0][1]))
         if last == "from" and len(args) == 1 and isinstance(args[0], tuple) and args[0][0] in ("le", "utf8"):
@@ -73,6 +76,20 @@ class DH(Hooks):
                     return r.v
             finally:
                 self.depth -= 1
+        if isinstance(recv, tuple) and recv and recv[0] == "utf8":
+            # a validated string: its byte length is the number of bytes; with `multibyte` its first two bytes are one character
+            nbytes = len(recv[1])
+            nchars = nbytes - 1 if (self.multibyte and nbytes >= 2) else nbytes
+            if m == "len" and not args:
+                return nbytes
+            if m in ("as_bytes", "bytes") and not args:
+                return ("list", list(recv[1]))
+            if m == "chars" and not args:
+                return ("list", [("char", i) for i in range(nchars)])
+            if m == "char_indices" and not args:
+                return ("list", [("tuple", [i if not (self.multibyte and nbytes >= 2 and i) else i + 1, ("char", i)]) for i in range(nchars)])
+            if m == "is_empty" and not args:
+                return nbytes == 0
         if isinstance(recv, int) and not isinstance(recv, bool):
             if m in ("min", "max") and len(args) == 1 and isinstance(args[0], int):
                 return min(recv, args[0]) if m == "min" else max(recv, args[0])
@@ -109,7 +126,7 @@ def state(r, limit, p, padded=True):
     return ("struct", "Decoder", {"bytes": ("list", pre + rest), "offset": PRE, "limit": NONE if limit is None else ("some", limit)})
 
 
-def evaluate(ctx, name, r, limit, p=None, utf8_ok=True, args=None, typed=None, padded=True):
+def evaluate(ctx, name, r, limit, p=None, utf8_ok=True, args=None, typed=None, padded=True, multibyte=False):
     """-> dict(result, offset, limit, panic)"""
     dm = codec.decoder_methods(ctx)
     if name not in dm:
@@ -117,7 +134,7 @@ def evaluate(ctx, name, r, limit, p=None, utf8_ok=True, args=None, typed=None, p
     methods = {k: v["fn"] for k, v in dm.items()}
     consts = codec.consts_of(ctx, DEC)
     sv = state(r, limit, p, padded)
-    h = DH(ctx, methods, consts, sv, utf8_ok, typed)
+    h = DH(ctx, methods, consts, sv, utf8_ok, typed, multibyte)
     ev = SymEval(h, "Decoder::" + name)
     f = methods[name]
     ps = [q[0] for q in f["sig"]["params"] if q[0] != "self"]
@@ -173,6 +190,8 @@ def string_cases(ctx=None):
                     yield r, limit, p, u
                 if p is not None and p % 4 != 3:
                     yield r, limit, p, "unpadded"      # non-zero bytes after the terminator: the string still ends at the first NUL
+                if p is not None and p >= 2 and p % 4 in (0, 1):
+                    yield r, limit, p, "multibyte"     # the first two bytes are one character: characters != bytes
 
 
 def describe(out):
